@@ -20,12 +20,24 @@ fn fold_steps(b: &syn::Block, fields: &[String]) -> (Vec<FoldStep>, Option<usize
     let mut steps = vec![];
     let mut will_map = None;
     let mut map_user = None;
+    // the local that receives the context: `let C = <folder>.will_map_user(&range);`
+    let mut ctx_name = "context".to_string();
+    for s in &b.stmts {
+        if let syn::Stmt::Local(l) = s {
+            if let (Some(init), syn::Pat::Ident(pi)) = (&l.init, &l.pat) {
+                let it = sm::tsc(&init.expr);
+                if it.contains("will_map_user(&range)") || it.contains("will_map_user_cfg(&range)") {
+                    ctx_name = pi.ident.to_string();
+                }
+            }
+        }
+    }
     for (i, s) in b.stmts.iter().enumerate() {
         let t = sm::tsx(s);
         if t.contains("will_map_user(&range)") || t.contains("will_map_user_cfg(&range)") {
             will_map = Some(i);
         }
-        if t.contains(".map_user(range,context)") || t.contains(".map_user_cfg(range,context)") {
+        if t.contains(&format!(".map_user(range,{})", ctx_name)) || t.contains(&format!(".map_user_cfg(range,{})", ctx_name)) {
             map_user = Some(i);
         }
         match s {
@@ -247,8 +259,14 @@ fn check_orders(cx: &mut Ctx, model: &AstModel, oref: &crate::rules::grammar_rul
         if name == "ExprJoinedStr" && is_override {
             let t = sm::tsx(block);
             // start located (moves the cursor), end only looked ahead, one shared location handed to the piece helper
-            let re = regex::Regex::new(r"^\{let(\w+)=self\.locate\(node\.range\.start\(\)\);let(\w+)=self\.locate_only\(node\.range\.end\(\)\);let(\w+)=SourceRange::new\((\w+),(\w+)\);(\w+)\(self,node,(\w+)\)\}$").unwrap();
-            let shape_ok = re.captures(&t.text).map_or(false, |c| c[1] == c[4] && c[2] == c[5] && c[3] == c[7] && loc.free_fns(&c[6]).len() == 1);
+            let re = regex::Regex::new(r"^\{let(\w+)=self\.locate\(node\.range\.start\(\)\);let(\w+)=self\.locate_only\(node\.range\.end\(\)\);(?:let(\w+)=SourceRange::new\((\w+),(\w+)\);(\w+)\(self,node,(\w+)\)|(\w+)\(self,node,SourceRange::new\((\w+),(\w+)\)\))\}$").unwrap();
+            let shape_ok = re.captures(&t.text).map_or(false, |c| {
+                if c.get(3).is_some() {
+                    c[1] == c[4] && c[2] == c[5] && c[3] == c[7] && loc.free_fns(&c[6]).len() == 1
+                } else {
+                    c[1] == c[9] && c[2] == c[10] && loc.free_fns(&c[8]).len() == 1
+                }
+            });
             if shape_ok {
                 cx.ok("C13.O3", "fold_expr_joined_str: start located, end looked ahead, pieces share the location");
             } else {
@@ -556,7 +574,7 @@ fn stale_state(cx: &mut Ctx) {
     // locate(): debug_assert cursor <= offset; state replaced or cursor advanced
     if let Some(l) = sc.method("LinearLocator", "locate") {
         let t = sm::tsx(&l.block);
-        if t.contains("let(column,new_state)=self.locate_inner(offset);matchnew_state{Some(state)=>{self.state=state;},_=>{self.state.cursor=offset;},}") {
+        if t.contains("let(column,new_state)=self.locate_inner(offset);matchnew_state{Some(state)=>self.state=state,_=>self.state.cursor=offset,}") {
             cx.ok(rule, "locate(): the state is replaced by the new line's state, or only the cursor advances");
         } else {
             cx.fail(rule, &format!("{}/locate", rule), &sc.loc(l), "locate() does not install the new state / advance the cursor");
